@@ -569,3 +569,63 @@ Qed.
 Example ex_state_shape :
   ex_state = mkS (mkM 1 10) (mkM 2 20) [] [mkW 2 (mkM 1 5) 21; mkW 3 (mkM 2 1) 52].
 Proof. vm_compute. reflexivity. Qed.
+
+(* ---------- the scheduler used for replay only produces behaviours of [step] ---------- *)
+
+Lemma run_app fx tr1 : forall st tr2,
+  fst (run fx st (tr1 ++ tr2)) = fst (run fx (fst (run fx st tr1)) tr2).
+Proof.
+  induction tr1 as [|[now ev] tr1 IH]; intros st tr2; cbn [app run]; [reflexivity|].
+  destruct (step fx st now ev) as [st1 o].
+  specialize (IH st1 tr2).
+  destruct (run fx st1 (tr1 ++ tr2)) as [sa la]. destruct (run fx st1 tr1) as [sb lb]. cbn [fst] in *.
+  exact IH.
+Qed.
+
+Definition sim_ok (fx : bool) (c : metric) (s : sim) : Prop :=
+  fst (fst s) = fst (run fx (init c) (rev (snd (fst s)))).
+
+Lemma sim_step_ok fx c s now ev : sim_ok fx c s -> sim_ok fx c (sim_step fx s now ev).
+Proof.
+  destruct s as [[st tr] ob]. unfold sim_ok, sim_step. cbn [fst snd]. intros H.
+  destruct (step fx st now ev) as [st' o] eqn:E. cbn [fst snd rev].
+  rewrite run_app, <- H. cbn [run]. rewrite E. destruct (run fx st' []) eqn:R. cbn in R. inversion R. reflexivity.
+Qed.
+
+Lemma drain_ok fx c prefer fuel : forall s now, sim_ok fx c s -> sim_ok fx c (drain fx prefer fuel s now).
+Proof.
+  induction fuel as [|f IH]; intros s now H; cbn [drain]; [exact H|].
+  destruct (pick prefer (woken (fst (fst s)))); [|exact H]. apply IH, sim_step_ok, H.
+Qed.
+
+Lemma fire_timers_ok fx c prefer fuel : forall s upto, sim_ok fx c s -> sim_ok fx c (fire_timers fx prefer fuel s upto).
+Proof.
+  induction fuel as [|f IH]; intros s upto H; cbn [fire_timers]; [exact H|].
+  destruct (min_waiter (waiting (fst (fst s)))) as [x|]; [|exact H].
+  destruct (match upto with Some T => (wdl x <=? T)%Z | None => true end); [|exact H].
+  apply IH. unfold drain_all. apply drain_ok, sim_step_ok, H.
+Qed.
+
+Lemma sim_script_ok fx c prefer sc : forall s, sim_ok fx c s -> sim_ok fx c (sim_script fx prefer s sc).
+Proof.
+  assert (Ht : forall s upto, sim_ok fx c s -> sim_ok fx c (timers fx prefer s upto)).
+  { intros s upto H. unfold timers. destruct fx; [apply fire_timers_ok, H | exact H]. }
+  induction sc as [|[now op] sc IH]; intros s H; cbn [sim_script]; [apply Ht, H|].
+  apply IH. specialize (Ht s (Some now) H). destruct (timers fx prefer s (Some now)) as [[st tr] ob] eqn:E.
+  destruct op; cbn [sim_op]; unfold drain_all.
+  - apply drain_ok, sim_step_ok, Ht.
+  - apply drain_ok, sim_step_ok, Ht.
+  - pose proof (sim_step_ok fx c (st, tr, ob) now (ERelease w) Ht) as H1.
+    destruct (sim_step fx (st, tr, ob) now (ERelease w)) as [[st1 tr1] ob1]. apply drain_ok. exact H1.
+  - apply drain_ok, sim_step_ok, Ht.
+  - exact Ht.
+Qed.
+
+(* the trace reported by [simulate] is a trace of [run], and the outputs are its log *)
+Lemma simulate_is_run fx c prefer sc :
+  let '(st, tr, ob) := sim_script fx prefer (init c, [], []) sc in
+  st = fst (run fx (init c) (rev tr)).
+Proof.
+  pose proof (sim_script_ok fx c prefer sc (init c, [], []) eq_refl) as H.
+  destruct (sim_script fx prefer (init c, [], []) sc) as [[st tr] ob]. exact H.
+Qed.
